@@ -451,6 +451,9 @@ class Bec2File:
         )
 
     def pack_auth_blocks(self, ext_encryptors: Iterable[Encryptor] = ()) -> bytes:
+        # every block searches all encryptors: a one-shot iterable must not be
+        # used up by the first block
+        ext_encryptors = tuple(ext_encryptors or ())
         packed_auth_blocks = bytes()
         for auth_block in self.auth_blocks.values():
             auth_block_raw = auth_block.pack(self.session_key, ext_encryptors)
@@ -487,6 +490,9 @@ class Bec2File:
     def unpack_auth_blocks(
         cls, raw_rdr: BytesIO, ext_encryptors: Iterable[Encryptor]
     ) -> tuple[Iterable[AuthBlock], Optional[bytes]]:
+        # every block searches all decryptors: a one-shot iterable must not be
+        # used up by the first block
+        ext_encryptors = tuple(ext_encryptors or ())
         common_session_key = None
         auth_blocks = []
         while True:
